@@ -1,3 +1,4 @@
+import Balm.DepthAlgo
 import BalmProofs.JudgeSpec
 import Balm
 import BalmProofs.AttrTest
